@@ -111,3 +111,11 @@ add("C09", "stateful / model-based testing: Hypothesis RuleBasedStateMachine ove
     "from-scratch scan, every file not covered by a same-version, same-checksum entry must have reached the wrapped analyser, and "
     "report / findings must refuse other-version caches.",
     "'fresh' is the tool's own scan without cache (correctness of the measurements is C01's business); small universe of 6 paths x 5 contents")
+
+add("C10", "fault enumeration: every truncation offset of the cache file and every key-path fault, each followed by a real scan; Hypothesis fault / edit / scan sequences; differential oracle against the fresh report",
+    "For 2 (thorough 6 + one 60-file) trees the cache a scan wrote is cut at every byte offset 0..len, replaced by every small JSON document "
+    "and byte garbage, has every member deleted and every value replaced by each wrong-typed value, and its directory is stripped of file / "
+    "markers; after each fault scan_command must finish with exit 0 and leave a cache that parses, is accepted by ReportReader and equals "
+    "the from-scratch report. Complete over the enumerated fault points of those trees.",
+    "crash = prefix of the valid bytes (single write_text); right-typed wrong values under a matching checksum are out of scope",
+    category="fault_enumeration")
